@@ -84,6 +84,12 @@ class SymNd(_np.ndarray):
     def any(self, *a, **k):
         return nany(self)
 
+    def sum(self, *a, **k):
+        return as_symnd(_np.ndarray.sum(self, *a, **k))
+
+    def prod(self, *a, **k):
+        return as_symnd(_np.ndarray.prod(self, *a, **k))
+
     def all(self, *a, **k):
         return nall(self)
 
@@ -130,8 +136,11 @@ def _flatten_list(l):
 
 
 def as_symnd(a):
-    if isinstance(a, _np.ndarray) and a.dtype == object and not isinstance(a, SymNd):
-        return a.view(SymNd)
+    if isinstance(a, _np.ndarray) and a.dtype == object:
+        if a.ndim == 0:
+            return a[()]            # numpy wraps scalar results of subclasses in 0-d arrays
+        if not isinstance(a, SymNd):
+            return a.view(SymNd)
     return a
 
 
